@@ -135,11 +135,11 @@ TRANSLATOR = os.path.join(TRANSLATOR_DIR, "_bin", "veriftr")
 TIE_ARGS = ["-Q", "theories", "Verif", "-Q", "gosem", "VerifGo", "-Q", "generated", "VerifGen", "-Q", "properties_code", "VerifCode"]
 TIES = {
     # name: Go package dir (relative to /repo), translator arguments, generated file, Coq files depending on it (in order)
-    "list": dict(dir="ds/list", args=[], gen="generated/GoList.v",
+    "list": dict(dir="ds/list", args=["-module", "GoList"], gen="generated/GoList.v",
                  chain=["gosem/GoListFacts.v", "gosem/GoListLPush.v", "gosem/GoListLRem.v", "gosem/GoListCode.v"]),
-    "set": dict(dir="ds/set", args=[], gen="generated/GoSet.v", chain=["gosem/GoSetFacts.v"]),
+    "set": dict(dir="ds/set", args=["-module", "GoSet"], gen="generated/GoSet.v", chain=["gosem/GoSetFacts.v"]),
     "codec": dict(dir=".", gen="generated/GoCodec.v", chain=["gosem/GoCodecFacts.v"],
-                  args=["-skipfiles", "verif_on.go,verif_dump.go", "-only",
+                  args=["-module", "GoCodec", "-skipfiles", "verif_on.go,verif_dump.go", "-only",
                         "Entry.Size,Entry.setEntryHeaderBuf,Entry.Encode,Entry.IsZero,Entry.GetCrc,readMetaData,"
                         "BPTreeRootIdx.Size,BPTreeRootIdx.Encode,BPTreeRootIdx.GetCrc,BPTreeRootIdx.IsZero,"
                         "BucketMeta.Size,BucketMeta.Encode,BucketMeta.GetCrc,IsExpired,DB.isFilterEntry,getNewKey,compare"]),
@@ -199,6 +199,8 @@ def translation_tie(name):
                 res.update(stage="translation (the package no longer parses / type-checks)", output=out[-3000:])
                 return res
             new = open(tmp).read()
+            side = tmp[:-2] + ".json"
+            sidecar = open(side).read() if os.path.exists(side) else None
         finally:
             shutil.rmtree(os.path.dirname(tmp), ignore_errors=True)
         gen = os.path.join(COQ, tie["gen"])
@@ -207,6 +209,10 @@ def translation_tie(name):
         if old != new:
             open(gen, "w").write(new)
             res["regenerated"] = True
+        if sidecar is not None:
+            sj = gen[:-2] + ".json"
+            if not os.path.exists(sj) or open(sj).read() != sidecar:
+                open(sj, "w").write(sidecar)
         res["functions"] = re.findall(r"^\(\* \S+  func (\S+) \*\)", new, re.M)
         m = re.search(r"\(\* not translated:\n(.*?)\*\)", new, re.S)
         res["skipped"] = [l.strip() for l in (m.group(1) if m else "").split("\n") if l.strip()]
